@@ -155,6 +155,14 @@ def exhaustive(chk, rep, name, modes, cap=20000):
                 except Failure as f:
                     rep.fail(f.bucket, f.detail, dict(source=source, modes=modes, ops=path + [op]))
                     continue
+                except Exception as e:
+                    import sys
+                    inside, where = engine.from_nasim(sys.exc_info()[2])
+                    if not inside:
+                        raise
+                    rep.fail(f"{chk.pid}:exception:{type(e).__name__}@{where}", f"{type(e).__name__}: {e} at {where}",
+                             dict(source=source, modes=modes, ops=path + [op]))
+                    continue
                 if first is None:
                     first = rec
                 key = rec.post_t.tobytes()
@@ -183,8 +191,20 @@ def _exh_shard(shard, seed, pid, tier, names, modes_list):
     name = names[shard]
     tot = dict(states=0, transitions=0)
     ok = True
+    import sys
     for modes in modes_list:
-        s, t, complete = exhaustive(chk, rep, name, modes)
+        case0 = dict(source={"kind": "shipped", "name": name}, modes=modes, ops=[])
+        try:
+            s, t, complete = exhaustive(chk, rep, name, modes)
+        except Failure as f:
+            rep.fail(f.bucket, f.detail, case0)
+            continue
+        except Exception as e:
+            inside, where = engine.from_nasim(sys.exc_info()[2])
+            if not inside:
+                raise
+            rep.fail(f"{pid}:exception:{type(e).__name__}@{where}", f"{type(e).__name__}: {e} at {where}", case0)
+            continue
         tot["states"] += s
         tot["transitions"] += t
         ok = ok and complete
